@@ -5,6 +5,7 @@
 # /repo and /verif stay free while this runs for an hour or two
 REPO=${RECHECK_REPO:-/repo}; V=${RECHECK_VERIF:-/verif}; export VERIF_REPO=$REPO
 cd $REPO && git diff --quiet || { echo "$REPO dirty"; exit 2; }
+[ "$REPO" != /repo ] && git -C $REPO clean -fdq src tests
 cd $V || exit 2
 names="$@"; [ -z "$names" ] && names=$(ls seeded)
 missed=0
@@ -26,7 +27,7 @@ for n in $names; do
     [ $rc -eq 1 ] && caught="$caught $c"
     [ $rc -eq 2 ] && caught="$caught $c(HARNESS-ERROR)"
   done
-  git -C $REPO checkout -- .
+  git -C $REPO checkout -- . ; git -C $REPO clean -fdq src tests
   [ -n "$base" ] && git -C $REPO checkout -q --detach $(git -C /repo rev-parse HEAD)
   [ -z "$checks" ] && { echo "$n: left unreported on purpose (see DESIGN 9.7)"; continue; }
   if [ -z "$caught" ]; then echo "$n: NOT CAUGHT (ran: $checks)"; missed=$((missed+1)); else echo "$n: caught by$caught"; fi
